@@ -563,6 +563,16 @@ func buildSignedData(expires uint32, sigtype uint16, transientPublicKey []byte) 
 func signWithDestinationType(destSigType uint16, privKey ed25519.PrivateKey, message []byte) ([]byte, error) {
 	switch destSigType {
 	case signature.SIGNATURE_TYPE_EDDSA_SHA512_ED25519,
+		signature.SIGNATURE_TYPE_REDDSA_SHA512_ED25519,
+		signature.SIGNATURE_TYPE_EDDSA_SHA512_ED25519PH:
+		// crypto/ed25519 panics on a private key of the wrong length
+		if len(privKey) != ed25519.PrivateKeySize {
+			return nil, fmt.Errorf("destination private key size mismatch: expected %d, got %d",
+				ed25519.PrivateKeySize, len(privKey))
+		}
+	}
+	switch destSigType {
+	case signature.SIGNATURE_TYPE_EDDSA_SHA512_ED25519,
 		signature.SIGNATURE_TYPE_REDDSA_SHA512_ED25519:
 		return ed25519.Sign(privKey, message), nil
 	case signature.SIGNATURE_TYPE_EDDSA_SHA512_ED25519PH:
